@@ -70,6 +70,7 @@ func TestC04(t *testing.T) {
 		}
 		g := gen.New(c.R, gen.DValid)
 		g.Carve = carve
+		g.SameAttrBias = []float64{0, 0.3, 0.6}[c.R.IntN(3)]
 		h := GenHistory(c.R, g, []canon.Signal{canon.Traces}, 4, 16)
 		rt(c, h, o, canon.Traces)
 		if c.Idx%97 == 0 {
